@@ -150,9 +150,11 @@ func c13Request(rng *rand.Rand) lreq {
 		"/view/a+b/c+", "/free/a+b%2Fc.txt", "/view/x%2By/z&w", "/view/semi;p=1/eq=2", "/free/at@x/col:on/c,d/$e/!f/(g)/*h",
 		// empty segments: a request target that starts with two slashes is a path, not an authority
 		"//view/view/a/b", "//free/free/x", "/view//b", "/free/a//b/", "//",
+		// escapes of the escape character, and escapes Go's default path encoding would not produce
+		"/view/100%25/x", "/view/%2541/z", "/free/50%25%20off/a", "/view/%7Euser/%41",
 		// characters net/url does not accept unescaped in an encoded path
 		"/view/a|b/c^d", "/free/{x}/a%2Fb/`y`", "/view/%7Bid%7D/<z>"}
-	lr := lreq{Method: []string{"GET", "POST", "PUT", "DELETE", "PATCH"}[rng.IntN(5)], Path: paths[rng.IntN(len(paths))], Headers: map[string]string{}}
+	lr := lreq{Method: []string{"GET", "POST", "PUT", "DELETE", "PATCH", "OPTIONS"}[rng.IntN(6)], Path: paths[rng.IntN(len(paths))], Headers: map[string]string{}}
 	lr.Host = []string{"svc.test", "api.example.com:8443", "10.1.2.3", "App.Example.COM", "SVC.test:80"}[rng.IntN(5)]
 	lr.Query = []string{"", "q=1", "q=1&multi=a&multi=b", "q=a%20b&x=%2F", "multi=z&q=1&q=2", "flag"}[rng.IntN(6)]
 	if rng.IntN(2) == 0 {
@@ -188,10 +190,22 @@ func c13Request(rng *rand.Rand) lreq {
 		// cookie headers with pairs a strict parser refuses: the other cookies are still there
 		lr.Headers["Cookie"] = []string{"sess=s3cr3t; consent", "other=J ü; sess=s3cr3t;", "a=1;;sess=s3cr3t; other=x", `prefs={"a":1,"b":"c d"}; sess=s3cr3t`, `path=c:\temp; other=2; sess=wrong`}[rng.IntN(5)]
 	}
+	if rng.IntN(6) == 0 {
+		// the client sends cookies named like the ones the pipeline produces for the upstream side
+		extra := []string{"out_sess=from-client", "out_sub=mallory", "out_sess=c1; out_sub=c2"}[rng.IntN(3)]
+		if c := lr.Headers["Cookie"]; c != "" && rng.IntN(2) == 0 {
+			lr.Headers["Cookie"] = extra + "; " + c
+		} else if c != "" {
+			lr.Headers["Cookie"] = c + "; " + extra
+		} else {
+			lr.Headers["Cookie"] = extra
+		}
+	}
 	if rng.IntN(5) == 0 {
 		lr.Headers[[]string{"X-Forwarded-Port", "X-Forwarded-Prefix", "X-Forwarded-User"}[rng.IntN(3)]] = []string{"8443", "/base", "mallory"}[rng.IntN(3)]
 	}
-	if lr.Method != "GET" && lr.Method != "DELETE" {
+	// a body is not tied to a method: every third GET / DELETE / OPTIONS request carries one as well
+	if (lr.Method != "GET" && lr.Method != "DELETE" && lr.Method != "OPTIONS") || rng.IntN(3) == 0 {
 		b := c13Bodies[rng.IntN(len(c13Bodies))]
 		lr.Body = b.body
 		if rng.IntN(8) == 0 && strings.Contains(b.ct, "json") && strings.HasPrefix(b.body, "{") {
